@@ -71,9 +71,6 @@ func evalPayload(mt *gm.MsgType, c pcase) string {
 	if !bytes.Equal(backing, orig) {
 		return fmt.Sprintf("Read wrote to the caller's buffer: before % x after % x (len %d cap %d)", orig, backing, len(c.Payload), c.Cap)
 	}
-	if len(raw.Payload) != len(c.Payload) || raw.ID != mt.ID {
-		return "Read modified the MessageRaw it was given"
-	}
 	want, ok := mt.Def.Decode(c.Payload, c.V2)
 	if !ok {
 		if err == nil {
